@@ -59,66 +59,3 @@ impl EncryptionConfig {
     pub fn to_persistent(&self) -> (r: Result<EncryptionPersistentConfig, ConfigError>) { unimplemented!() }
 }
 
-/// Box<dyn LayerReader> / Box<dyn LayerFailSafeReader>: ghost `stack` = the layers from the raw source up
-pub struct VDynReader { pub stack: Ghost<Seq<int>> }
-impl VRead for VDynReader {
-    uninterp spec fn data(&self) -> Seq<u8>;
-    uninterp spec fn pos(&self) -> nat;
-    uninterp spec fn wf(&self) -> bool;
-    #[verifier::external_body]
-    fn read(&mut self, buf: &mut [u8]) -> (r: std::io::Result<usize>) { unimplemented!() }
-}
-impl VStream for VDynReader {
-    #[verifier::external_body]
-    fn seek(&mut self, to: std::io::SeekFrom) -> (r: std::io::Result<u64>) { unimplemented!() }
-}
-/// layers::encrypt::EncryptionReaderConfig: opaque here (unit enc_cfg / enc_reader)
-pub struct EncryptionReaderConfig { _p: u8 }
-impl EncryptionReaderConfig {
-    #[verifier::external_body]
-    pub fn load_persistent(&mut self, config: &EncryptionPersistentConfig) -> (r: Result<(), ConfigError>) { unimplemented!() }
-}
-impl VDynReader {
-    /// Box::new(RawLayerReader::new(src)) followed by reset_position(): the raw layer starts right after the header
-    #[verifier::external_body]
-    pub fn raw<R: VRead>(src: R) -> (r: VDynReader) requires src.wf() ensures r.wf(), r.stack@ == seq![layer_raw()] { unimplemented!() }
-    /// Box::new(EncryptionLayerReader::new(inner, &config.encrypt)?) / EncryptionLayerFailSafeReader::new
-    #[verifier::external_body]
-    pub fn wrap_encrypt(inner: VDynReader, cfg: &EncryptionReaderConfig) -> (r: Result<VDynReader, Error>)
-        requires inner.wf(),
-        ensures r is Ok ==> r->Ok_0.wf() && r->Ok_0.stack@ == inner.stack@.push(layer_encrypt()),
-    { unimplemented!() }
-    /// Box::new(CompressionLayerReader::new(inner)?) / CompressionLayerFailSafeReader::new
-    #[verifier::external_body]
-    pub fn wrap_compress(inner: VDynReader) -> (r: Result<VDynReader, Error>)
-        requires inner.wf(),
-        ensures r is Ok ==> r->Ok_0.wf() && r->Ok_0.stack@ == inner.stack@.push(layer_compress()),
-    { unimplemented!() }
-    /// LayerReader::initialize of the whole stack (each layer reads its footer): keeps the stack
-    #[verifier::external_body]
-    pub fn initialize(&mut self) -> (r: Result<(), Error>)
-        requires old(self).wf(),
-        ensures final(self).wf(), final(self).stack == old(self).stack,
-    { unimplemented!() }
-    /// reset_position on the raw layer (before it is boxed)
-    #[verifier::external_body]
-    pub fn reset_position(&mut self) -> (r: std::io::Result<()>)
-        requires old(self).wf(),
-        ensures final(self).wf(), final(self).stack == old(self).stack,
-    { unimplemented!() }
-    /// Seek::rewind = seek(Start(0)) (keeps the stack)
-    #[verifier::external_body]
-    pub fn rewind(&mut self) -> (r: std::io::Result<()>)
-        requires old(self).wf(),
-        ensures final(self).wf(), final(self).stack == old(self).stack,
-    { unimplemented!() }
-}
-/// the archive footer as read back (lib.rs ArchiveFooter::deserialize_from(&mut src), verified in unit blocks)
-pub struct ArchiveFooter { _p: u8 }
-impl ArchiveFooter {
-    #[verifier::external_body]
-    pub fn deserialize_from(src: &mut VDynReader) -> (r: Result<ArchiveFooter, Error>)
-        requires old(src).wf(),
-        ensures final(src).wf(), final(src).stack == old(src).stack,
-    { unimplemented!() }
-}
